@@ -250,6 +250,13 @@ def run_check(pid, fn, tier='quick', replay=None):
         extra = res[3] if len(res) > 3 else None
         return finish(report, explanation, assumptions, rule_text, extra_cov=extra)
     except AnalysisError as e:
+        # rule instances decided before the analyser had to give up stand: a violation among them is reported (exit 1), the error after it
+        known = set(k.get('key') for k in load_known().get('findings', []) if k.get('property') == pid)
+        if not replay and any(f.key not in known for f in report.findings):
+            report.errors.append(str(e))
+            rc = finish(report, 'the analysis stopped early (%s); the instances decided until then are reported' % e, [], '')
+            _p('ANALYSIS-ERROR property=%s %s' % (pid, e))
+            return rc
         _p('ANALYSIS-ERROR property=%s %s' % (pid, e))
         return 2
     except Exception as e:  # a traceback must never look like a violation
